@@ -133,14 +133,22 @@ def arg1 (kw : String) (e : SExp) : Option SExp := do
 
 def decObs (e : SExp) : Option Spec.Obs := do
   match ← args "real" e with
-  | [st, ce, coded, body, complete, hdr, lg, esc, recov, acq, rel, dbl] =>
+  | st :: ce :: coded :: body :: complete :: hdr :: lg :: esc :: recov :: acq :: rel :: dbl :: more =>
     let escv ← match ← arg1 "esc" esc with
       | .atom "none" => pure none
       | x => (asStr x).map some
+    -- `(recovd n)`: calls of the library's own recover handler, counted through the package logger.
+    -- A line recorded before the field existed has 12 entries and still parses: the count is then 0
+    -- ("no such call was observed").
+    let recovd ← match more with
+      | [] => pure 0
+      | [rd] => do asNat (← arg1 "recovd" rd)
+      | _ => none
     pure { status := ← asNat (← arg1 "st" st), ce := ← asStr (← arg1 "ce" ce), coded := ← asBool (← arg1 "coded" coded),
            body := ← asStr (← arg1 "body" body), complete := ← asBool (← arg1 "complete" complete), hdr := ← decKVs "hdr" hdr,
            log := ← (← args "log" lg).mapM decEvent, escaped := escv, recov := ← asNat (← arg1 "recov" recov),
-           acq := ← asNat (← arg1 "acq" acq), rel := ← asNat (← arg1 "rel" rel), dbl := ← asNat (← arg1 "dbl" dbl) }
+           acq := ← asNat (← arg1 "acq" acq), rel := ← asNat (← arg1 "rel" rel), dbl := ← asNat (← arg1 "dbl" dbl),
+           recovDefault := recovd }
   | _ => none
 
 /-- `(serve id scfg (hist (h entry sreq real?) …))` → one `(res …)` per request, each served on a fresh
